@@ -138,6 +138,58 @@ def run_cg_steps(case):
     return {"W": W, "sizes": sizes, "demands": demands, "steps": steps, "status": status, "converged": bool(converged), "lb": lb, "input": case}
 
 
+def run_cg_steps_custom(case):
+    """Step level for custom-pricing mode: wrap cg._solve_master_lp, and log every call of the (driver-owned) exact pricing function
+    over the explicit column set.  Same trace format as run_cg_steps, with "pool" instead of a roll width."""
+    import math
+    import solvor.cg as CG
+    demands = case["demands"]
+    pool = [tuple(c) for c in case["pool"]]
+    m = len(demands)
+    steps = []
+    orig_m = CG._solve_master_lp
+
+    def s6(v):
+        return int(round(v * 1000000))
+
+    def master(columns, dem, eps):
+        r = orig_m(columns, dem, eps)
+        x, d, lp = r
+        fin = all(isinstance(v, (int, float)) and math.isfinite(v) and abs(v) < 1000 for v in list(x) + list(d) + [lp])
+        steps.append({"k": "master", "cols": [list(c) for c in columns], "finite": bool(fin),
+                      "x6": [s6(v) for v in x] if fin else [0] * len(columns), "duals6": [s6(v) for v in d] if fin else [0] * len(dem),
+                      "lp6": s6(lp) if fin else 0})
+        return r
+
+    def pricing(duals):
+        best, bestrc = None, -1e-9
+        for col in pool:
+            rc = 1.0 - sum(d * a for d, a in zip(duals, col))
+            if rc < bestrc:
+                best, bestrc = col, rc
+        # logged like a knapsack pricing call: the most valuable column of the set under these duals and its value, improving or not
+        top = max(pool, key=lambda col: sum(d * a for d, a in zip(duals, col)))
+        val = sum(d * a for d, a in zip(duals, top))
+        steps.append({"k": "price", "pattern": [int(v) for v in top], "value6": s6(val) if abs(val) < 1000 else 0})
+        return (best, bestrc) if best is not None else (None, 0.0)
+    CG._solve_master_lp = master
+    try:
+        try:
+            r = CG.solve_cg(demands, pricing_fn=pricing, initial_columns=[list(c) for c in case["initial"]])
+            status = r.status.name
+        except Exception as ex:  # noqa: BLE001
+            status = "raise:" + type(ex).__name__
+    finally:
+        CG._solve_master_lp = orig_m
+    if not steps or len(steps) > 80 or not any(e["k"] == "master" for e in steps):
+        return {"skipped": True}
+    last = [e for e in steps if e["k"] == "master"][-1]
+    converged = steps[-1]["k"] == "price" and steps[-1]["value6"] <= 1000000 + 100 and last["finite"] or (len(steps) >= 2 and steps[-2]["k"] == "price" and last["finite"])
+    lb = int(math.ceil(last["lp6"] / 1000000 - 1e-6)) if last["finite"] else 0
+    return {"W": 0, "sizes": [1] * m, "demands": demands, "pool": [list(c) for c in pool], "steps": steps, "status": status, "converged": bool(converged), "lb": lb,
+            "input": case}
+
+
 def gen_stock(rng):
     nt = rng.randint(1, 3) if rng.random() < 0.6 else rng.randint(4, 5)
     W = rng.randint(3, 12)
